@@ -205,8 +205,8 @@ fn req(id: usize, name: String, src: &str, builds: Vec<BuildSpec>) -> Request {
 
 fn opts(t: Tier) -> Opts {
     match t {
-        Tier::Quick => Opts { ext_types: false, all_ops: false, ident_pool_cap: 12 },
-        Tier::Thorough => Opts { ext_types: true, all_ops: true, ident_pool_cap: 40 },
+        Tier::Quick => Opts { ext_types: false, all_ops: false, ident_pool_cap: 12, ident_kws: 1 },
+        Tier::Thorough => Opts { ext_types: true, all_ops: true, ident_pool_cap: 40, ident_kws: 3 },
     }
 }
 
@@ -343,14 +343,14 @@ fn ladder_kmax(family: &str, t: Tier) -> usize {
     }
 }
 
-fn run_ladder_family(family: &'static str, idx: usize, scratch: &std::path::Path, t: Tier) -> LadderResult {
-    let slow_ms: u64 = t.pick(6_000, 20_000);
-    let timeout = Duration::from_secs(t.pick(120, 300));
+fn run_ladder_family(family: &'static str, idx: usize, scratch: &std::path::Path, t: Tier, slowdown: f64) -> LadderResult {
+    let slow_ms: u64 = (t.pick(6_000.0, 20_000.0) * slowdown) as u64;
+    let timeout = Duration::from_secs((t.pick(120.0, 300.0) * slowdown) as u64);
     let mut drv = SeqDriver::new(scratch, idx, 24 << 30);
     let mut res = LadderResult { rungs: vec![], failures: vec![], caps: vec![], builds: 0 };
     // warm-up: std type-checked once per profile, not measured
     let warm = req(0, format!("c17_lw{idx}"), "script;\n\nfn main() {}\n", vec![spec("d", false, false), spec("r", true, false)]);
-    if let Err(e) = drv.request(&warm, Duration::from_secs(600)) {
+    if let Err(e) = drv.request(&warm, Duration::from_secs(1800)) {
         vhcore::machinery_failure(&format!("ladder warm-up failed: {e}"));
     }
     let kmax = ladder_kmax(family, t);
@@ -436,7 +436,7 @@ fn run(a: &vhcore::Args) -> i32 {
     pool.recycle_after = 400;
 
     // ---- phase A: base programs, Mode F vs Mode A self-check -----------------------------------
-    let n_self = t.pick(6, bs.len());
+    let n_self = t.pick(6, 16);
     let base_reqs: Vec<Request> = bs
         .iter()
         .enumerate()
@@ -454,6 +454,7 @@ fn run(a: &vhcore::Args) -> i32 {
     let base_resps = base_pool.run(&base_reqs);
     let mut builds_total = 0usize;
     let mut self_checked = 0usize;
+    let mut cold_ms: Vec<u64> = vec![];
     let mut outcomes = vhcore::Distinct::default();
     let mut outcome_samples: BTreeMap<String, usize> = BTreeMap::new();
     let mut cases: Vec<Case> = vec![];
@@ -496,6 +497,7 @@ fn run(a: &vhcore::Args) -> i32 {
                         if f.ok {
                             self_checked += 1;
                         }
+                        cold_ms.push(am.millis);
                     }
                 }
             }
@@ -504,7 +506,18 @@ fn run(a: &vhcore::Args) -> i32 {
     if self_checked < 4 {
         vhcore::machinery_failure("self-check: fewer than 4 successful Mode F / Mode A comparisons");
     }
-    eprintln!("[c17] phase A done: {} bases, {self_checked} Mode F = Mode A comparisons, {:.0}s", bs.len(), t_start.elapsed().as_secs_f64());
+    // A build that type-checks std from scratch takes ~4 s on an idle 16-core machine; the hang
+    // threshold (120 s idle) is scaled by the slowdown measured on this run's Mode A builds.
+    cold_ms.sort();
+    let cold_median = cold_ms.get(cold_ms.len() / 2).copied().unwrap_or(4000);
+    let slowdown = (cold_median as f64 / 4000.0).clamp(1.0, 5.0);
+    let hang_s = (120.0 * slowdown) as u64;
+    pool.timeout = Duration::from_secs(hang_s);
+    eprintln!(
+        "[c17] phase A done: {} bases, {self_checked} Mode F = Mode A comparisons, cold build median {cold_median} ms, hang threshold {hang_s} s, {:.0}s",
+        bs.len(),
+        t_start.elapsed().as_secs_f64()
+    );
 
     // ---- phase B: every mutant, debug ---------------------------------------------------------------
     let first_mutant = cases.len();
@@ -588,7 +601,7 @@ fn run(a: &vhcore::Args) -> i32 {
     let mut transient = 0usize;
     if !retry.is_empty() {
         let mut solo = Pool::new(a.jobs.min(4), work.join("solo"));
-        solo.timeout = Duration::from_secs(120);
+        solo.timeout = Duration::from_secs(hang_s);
         let rq: Vec<Request> = retry
             .iter()
             .enumerate()
@@ -609,7 +622,7 @@ fn run(a: &vhcore::Args) -> i32 {
     // ---- phase D: scale ladder --------------------------------------------------------------------
     let fams: Vec<&'static str> = mutgen::LADDER_FAMILIES.to_vec();
     let ladder_scratch = work.join("ladder");
-    let lres = vhcore::par_map_idx(fams.len(), a.jobs, |i| run_ladder_family(fams[i], i, &ladder_scratch, t));
+    let lres = vhcore::par_map_idx(fams.len(), a.jobs, |i| run_ladder_family(fams[i], i, &ladder_scratch, t, slowdown));
     let mut ladder_table = vec![];
     for lr in &lres {
         builds_total += lr.builds;
@@ -657,7 +670,7 @@ fn run(a: &vhcore::Args) -> i32 {
         }
     }
     let mut conf_pool = Pool::new(a.jobs, work.join("confirm"));
-    conf_pool.timeout = Duration::from_secs(t.pick(180, 360));
+    conf_pool.timeout = Duration::from_secs(hang_s + 60);
     conf_pool.recycle_after = 1;
     let conf_resps = conf_pool.run(&conf_reqs);
     builds_total += conf_reqs.len();
@@ -774,6 +787,8 @@ fn run(a: &vhcore::Args) -> i32 {
     rep.set("release_rejected_after_debug_ok", release_rejected as u64);
     rep.set("modeF_equals_modeA_comparisons", self_checked as u64);
     rep.set("transient_worker_failures_not_reproduced", transient as u64);
+    rep.set("hang_threshold_s", hang_s);
+    rep.set("cold_build_median_ms", cold_median);
     rep.set("mean_build_ms", if builds_total > 0 { ms_sum / (builds_total as u64).max(1) } else { 0 });
     rep.set("ladder", json!(ladder_table));
     rep.set("failure_classes", json!(class_table));
